@@ -122,6 +122,7 @@ def run_config(chk, tier, cfgname):
                      loc="%s:%s" % (e.file, e.line), sample={"assume_init": f["n"], "caller": caller, "caller_unsafe": bool(cf.get("unsafe"))})
     chk.floor("assume_init-call-sites", n_ai, 5)
     rules_builder.value_moved_into_block(chk, prog)
+    rules_builder.builders_invariant_in_value_type(chk, prog)
     rules_builder.block_exposed_only_after_disarm(chk, prog)
     rules_builder.pointer_range_loops(chk, prog)
     # ---- partial initialisation
@@ -272,3 +273,5 @@ def run(chk, tier):
             del chk.explanation[n_expl:]
             del chk.not_decided[nd:]
     chk.cfg = None
+    from gcv import witness
+    witness.report(chk, "C18", rule="witness", floor=1, tier=tier)
